@@ -251,9 +251,17 @@ func runC12(pl *plan.Plan, out *plan.Outcome) {
 				}
 			}
 			env.Sleep(200 * time.Millisecond)
-			if e := stallEnd(time.Now()); e.After(time.Now()) {
+			// Let the collector finish what it has read: wait until the consumer is receiving again,
+			// then let simulated time move once more (the clock only moves when every goroutine is
+			// blocked, i.e. when everything that was in flight has been delivered).
+			for {
+				e := stallEnd(time.Now())
+				if !e.After(time.Now()) {
+					break
+				}
 				env.Sleep(e.Sub(time.Now()) + time.Millisecond)
 			}
+			env.Sleep(5 * time.Millisecond)
 			if tr != 1 {
 				allClosed := true
 				for _, op := range clients {
